@@ -72,6 +72,9 @@ H2Verdict(c) ==
     IF c.err # "none" THEN "exception-on-valid-input"
     ELSE IF ~c.lat THEN "value-not-on-lattice"
     ELSE IF \E t \in 1..Len(c.varAnn) : c.errq[t] # (c.hd - c.hn) * c.varAnn[t] THEN "heritability-calibration"
+    \* calibrating the error variance changes nothing else: the other variance components keep their values, and so do the arrays
+    \* the caller handed over (before / after: environment, replicate components times 8)
+    ELSE IF c.others.before # c.others.after THEN "calibration-changed-other-variance-components-or-the-callers-arrays"
     ELSE "ok"
 
 TInit == i \in 1..Len(Cases) /\ n = 0 /\ nrep = <<>> /\ e = 0 /\ k = 0 /\ recs = <<>>
